@@ -654,8 +654,8 @@ class Daemon(object):
             serializer.dumps(wrapper)
         except Exception as x:
             msg = "Error serializing exception: %s. Original exception: %s: %s" % (str(x), type(exc_value), str(exc_value))
-            replacement = errors.PyroError(msg)
-            replacement._pyroTraceback = getattr(exc_value, "_pyroTraceback", None)
+            replacement = errors.PyroError(_encodable(msg))
+            replacement._pyroTraceback = _encodable(getattr(exc_value, "_pyroTraceback", None))
             wrapper = core._ExceptionWrapper(replacement)
         return wrapper
 
@@ -669,8 +669,8 @@ class Daemon(object):
             # the exception object couldn't be serialized, use a generic PyroError instead
             xt, xv, tb = sys.exc_info()
             msg = "Error serializing exception: %s. Original exception: %s: %s" % (str(xv), type(exc_value), str(exc_value))
-            exc_value = errors.PyroError(msg)
-            exc_value._pyroTraceback = tbinfo
+            exc_value = errors.PyroError(_encodable(msg))
+            exc_value._pyroTraceback = _encodable(tbinfo)
             data = serializer.dumps(exc_value)
         flags |= protocol.FLAGS_EXCEPTION
         annotations = dict(annotations or {})
@@ -963,6 +963,15 @@ def _is_lazy_attribute(clazz: type, name: str) -> bool:
     kind = type(static)
     return hasattr(kind, "__get__") and not hasattr(kind, "__set__") and not hasattr(kind, "__delete__") and not callable(static) \
         and not isinstance(static, (classmethod, staticmethod, functools.partialmethod))
+
+
+def _encodable(text):
+    """the text (or list of texts) with whatever cannot be encoded, such as a lone surrogate, written as an escape sequence"""
+    if isinstance(text, str):
+        return text.encode("utf-8", "backslashreplace").decode("utf-8")
+    if isinstance(text, (list, tuple)):
+        return [_encodable(line) for line in text]
+    return text
 
 
 def _get_attribute(obj: Any, attr: str) -> Any:
